@@ -22,6 +22,7 @@ use qvlib::{catch, hex, json, panic_key, qd, unhex, Ctx, Local, Value};
 
 use crate::gen::{self, Ct};
 use crate::refmodel::{self as rm, Exp};
+use crate::watch;
 
 fn dbg<E: std::fmt::Debug>(e: E) -> String {
     format!("{e:?}")
@@ -40,6 +41,7 @@ fn err_class(e: &str) -> String {
 
 pub fn check_validate(l: &mut Local, ct: Ct, rd: &[u8], fam: &str) {
     l.tick();
+    watch::note("validate", rd, &[], [ct.class as u64, ct.typ as u64, 0, 0]);
     let want = wire::rdata_valid(ct.class, ct.typ, rd);
     let got = catch(|| qd::rdata(rd).validate(Class::from(ct.class), Type::from(ct.typ)).map_err(dbg));
     let case = || json!({"kind": "validate", "class": ct.class, "type": ct.typ, "label": ct.label, "rdata": hex(rd), "family": fam, "reference_valid": want});
@@ -56,6 +58,7 @@ pub fn check_validate(l: &mut Local, ct: Ct, rd: &[u8], fam: &str) {
 
 pub fn check_read(l: &mut Local, ct: Ct, msg: &[u8], cursor: usize, rdlength: u16, fam: &str) {
     l.tick();
+    watch::note("read", msg, &[], [ct.class as u64, ct.typ as u64, cursor as u64, rdlength as u64]);
     let exp = rm::exp_rdata_read(msg, cursor, rdlength, ct.class, ct.typ);
     let got = catch(|| {
         Rdata::read(Class::from(ct.class), Type::from(ct.typ), msg, cursor, rdlength).map_err(dbg).map(|cow| {
@@ -239,7 +242,7 @@ const SHORT_ALPHABET: [u8; 8] = [0x00, 0x01, 0x02, 0x03, 0x06, 0x40, 0xc0, 0xff]
 // ----------------------------------------------------- W: writer round trip
 
 #[derive(Clone, Copy, Debug, PartialEq, Eq)]
-enum Mode {
+pub enum Mode {
     Standard,
     CasePreserving,
     Disabled,
@@ -340,6 +343,12 @@ fn same_rdata(ct: Ct, mode: Mode, written: &[u8], read: &[u8]) -> bool {
 
 pub fn check_roundtrip(l: &mut Local, ct: Ct, rdatas: &[&[u8]], mode: Mode, context: u8, rrset: bool) {
     l.tick();
+    watch::note(
+        "roundtrip",
+        rdatas[0],
+        rdatas.get(1).copied().unwrap_or(&[]),
+        [ct.class as u64, ct.typ as u64, MODES.iter().position(|m| *m == mode).unwrap_or(0) as u64, context as u64 | (rrset as u64) << 1 | (rdatas.len() as u64) << 2],
+    );
     let case = || json!({"kind": "roundtrip", "class": ct.class, "type": ct.typ, "label": ct.label, "rdatas": rdatas.iter().map(|r| hex(r)).collect::<Vec<_>>(), "mode": mode.name(), "context": context, "rrset": rrset});
     let key = |what: &str| format!("roundtrip:{}:{}:{}", ct.label, mode.name(), what);
     let msg = match catch(|| write_message(ct, rdatas, mode, context, rrset)) {
@@ -423,7 +432,23 @@ enum Item {
     Roundtrip(Ct),
 }
 
+fn hang_case(n: &watch::Noted) -> (String, Value) {
+    let (class, typ) = (n.nums[0], n.nums[1]);
+    match n.kind {
+        "validate" => ("validate:does-not-terminate".into(), json!({"kind": "validate", "class": class, "type": typ, "rdata": hex(&n.a)})),
+        "read" => ("read:does-not-terminate".into(), json!({"kind": "read", "class": class, "type": typ, "msg": hex(&n.a), "cursor": n.nums[2], "rdlength": n.nums[3]})),
+        _ => {
+            let mut rds = vec![hex(&n.a)];
+            if (n.nums[3] >> 2) > 1 {
+                rds.push(hex(&n.b));
+            }
+            ("roundtrip:does-not-terminate".into(), json!({"kind": "roundtrip", "class": class, "type": typ, "rdatas": rds, "mode": MODES[n.nums[2] as usize % 3].name(), "context": n.nums[3] & 1, "rrset": (n.nums[3] >> 1) & 1 == 1}))
+        }
+    }
+}
+
 pub fn run(ctx: Ctx) -> ! {
+    watch::start(&ctx, hang_case, finish);
     if let Some(case) = ctx.replay_case() {
         let case = case.clone();
         replay(&ctx, &case);
@@ -462,12 +487,20 @@ pub fn run(ctx: Ctx) -> ! {
     let k = (ctx.seed as usize) % items.len().max(1);
     items.rotate_left(k);
     ctx.set_extra("work_items", json!(items.len()));
-    ctx.par_for_each(&items, |l, item| match item {
+    ctx.par_for_each(&items, |l, item| {
+        run_item(l, item, &cts, vshort, rshort);
+        watch::idle();
+    });
+    finish(ctx);
+}
+
+fn run_item(l: &mut Local, item: &Item, cts: &[Ct], vshort: usize, rshort: usize) {
+    match item {
         Item::Validate(ct, rd) => {
             check_validate(l, *ct, rd, "grammar");
             gen::near_variants(rd, |v| check_validate(l, *ct, v, "grammar-near"));
             // and the same octets under every other class/type
-            for other in &cts {
+            for other in cts {
                 if other.class != ct.class || other.typ != ct.typ {
                     check_validate(l, *other, rd, "grammar-cross-type");
                 }
@@ -485,10 +518,10 @@ pub fn run(ctx: Ctx) -> ! {
                 });
             }
         }
-        Item::Read(ct, rd, lim) => read_family(l, *ct, &cts, rd, *lim),
+        Item::Read(ct, rd, lim) => read_family(l, *ct, cts, rd, *lim),
         Item::ReadShort(x, y) => {
             if *x == SHORT_ALPHABET[0] && *y == SHORT_ALPHABET[0] {
-                for ct in &cts {
+                for ct in cts {
                     sweep_all_pairs(l, *ct, &[], "short-message");
                     for z in SHORT_ALPHABET {
                         sweep_all_pairs(l, *ct, &[z], "short-message");
@@ -499,7 +532,7 @@ pub fn run(ctx: Ctx) -> ! {
                 qvlib::enumerate::for_each_bytes_exact(&SHORT_ALPHABET, len, |tail| {
                     let mut m = vec![*x, *y];
                     m.extend_from_slice(tail);
-                    for ct in &cts {
+                    for ct in cts {
                         sweep_all_pairs(l, *ct, &m, "short-message");
                     }
                 });
@@ -533,8 +566,7 @@ pub fn run(ctx: Ctx) -> ! {
                 }
             }
         }
-    });
-    finish(ctx);
+    }
 }
 
 fn finish(ctx: Ctx) -> ! {
